@@ -359,7 +359,6 @@ Section Bound.
     assert (Hw : wire c m <= W L).
     { unfold wire, hdr_bytes, W. rewrite Hrt, Hk. change (0 =? 0) with true. change (Nat.eqb 0 2) with false. cbv iota. lia. }
     assert (T3 : tot s3 <= Bnd L) by (unfold tot, Bnd in *; lia).
-    rewrite G3, G1.
     pose proof (quiet_mono fu PFlushToCap s3 I N3) as Q4.
     destruct (run fu c PFlushToCap s3) as [s4|s4|a s4|] eqn:E4; cbn [resQ] in Q4; try exact I; try lia.
     destruct Q4 as (N4 & T4 & B4 & I4).
